@@ -1,90 +1,212 @@
 """C09 — HEAD and OPTIONS behave consistently with GET.
 Oracle (implementation only): for every path GET serves (200/206), HEAD has the same status
-and headers (Content-Length included; timestamp masked) and no body; OPTIONS is a bodiless
-success carrying the preflight grants when an Origin is given."""
-from vlib import common as C, serve as S, reqgen as G, strict_http as H, servecheck as K
+and headers (Content-Length included: it is the length of the body GET sent; timestamp masked) and no body;
+OPTIONS is a bodiless success carrying the preflight grants when an Origin is given (in the restricted CORS
+mode: when the configuration lists the origin, the method and the headers asked for)."""
+from vlib import common as C, serve as S, reqgen as G, strict_http as H, servecheck as K, gen_c09 as X
 
 DRIVERS = ['Serve']   # model driver files this check runs: scopes translator failures to the tables they (and the proofs) import
 TRUSTED = []
 ASSUMPTIONS = []
 WITH_MODEL = True
 
+BATCH = 640     # cases per harness/model process pair: the batches of a run execute side by side, the largest one sets the wall time
+
 def build(rng, tier):
-    batches = []
-    for ti in range(6 if tier == 'quick' else 60):
+    """[(configuration key, [(tree, cases)])]"""
+    quick = tier == 'quick'
+    base = []
+    SETS = lambda rng: ([], [('Origin', 'http://o.example')],
+                    [('Origin', 'http://o.example'), ('Access-Control-Request-Method', 'PUT'), ('Access-Control-Request-Headers', 'X-Custom, Content-Type')],
+                    [('Origin', 'http://o.example'), ('Access-Control-Request-Method', rng.choice(['PUT', 'DELETE', 'POST', 'PATCH', 'GET']))],   # what a browser sends when only safelisted headers are used
+                    [('Origin', 'https://app.example:8443'), ('Access-Control-Request-Headers', 'x-one'), ('Access-Control-Request-Method', 'DELETE')],
+                    [('Range', 'bytes=0-')], [('Range', 'bytes=0-0')])
+    for ti in range(6 if quick else 60):
         tree = S.gen_tree(rng, small=True)
+        o = X.Out(tree)
         paths = ['/' + n.decode('utf-8', 'surrogateescape') for n in tree.names] + ['/sub', '/sub/', '/page', '/', '/style.css', '/script.js', '/favicon.svg', '/missing']
-        cases = []
+        # the .html fallback of every generated page, the links and directories of the tree that the name list leaves out
+        extra = ['/' + n.decode('utf-8', 'surrogateescape')[:-5] for n in tree.names if n.endswith(b'.html')]
+        extra += [p for p, rel in (('/link.txt', b'link.txt'), ('/alias', b'alias'), ('/alias/', b'alias')) if tree.cwd + b'/' + rel in tree.links]
+        extra += ['/sub/deep', '/sub/deep/', '/emptydir', '/v1.2/', '/index.html', '/index', '/404.html']
         for p in paths:
             for entry in ('proc', 'preq'):
-                for hs in ([], [('Origin', 'http://o.example')],
-                           [('Origin', 'http://o.example'), ('Access-Control-Request-Method', 'PUT'), ('Access-Control-Request-Headers', 'X-Custom, Content-Type')],
-                           [('Origin', 'http://o.example'), ('Access-Control-Request-Method', rng.choice(['PUT', 'DELETE', 'POST', 'PATCH', 'GET']))],   # what a browser sends when only safelisted headers are used
-                           [('Origin', 'https://app.example:8443'), ('Access-Control-Request-Headers', 'x-one'), ('Access-Control-Request-Method', 'DELETE')],
-                           [('Range', 'bytes=0-')], [('Range', 'bytes=0-0')]):
+                for hs in SETS(rng):
                     q = rng.choice(['', '', '?v=1'])
-                    for m in ('GET', 'HEAD', 'OPTIONS'):
-                        cases.append(K.mk(tree, m, p + q, hs, entry=entry, kind='triple'))
-        batches.append((tree, cases))
-    return batches
+                    o.triple('base', p + q, hs, entry)
+        rx = rng.fork(f'extra-{ti}')      # the stream of `rng` is the one of the base product alone
+        for i, p in enumerate(extra):
+            for e, entry in enumerate(('proc', 'preq')):
+                sets = SETS(rx)
+                for hs in (sets if not quick else [sets[(i + j + 5 * e) % 7] for j in (0, 3)][:2 - e]):      # the legacy chain serves plain files only
+                    q = rx.choice(['', '', '?v=1'])
+                    o.triple('base', p + q, hs, entry)
+        base += X.split(tree, o.cases, BATCH)
+    # the families of vlib/gen_c09.py, on trees that hold one instance of every shape of servable path (known sizes)
+    fam = []
+    for k in range(3 if quick else 6):
+        tree = S.gen_tree(rng.fork(f'c9-{k}'), small=True)
+        T = X.extend_tree(rng.fork(f'c9x-{k}'), tree, k, big=(k % 3 == 2 if quick else k % 2 == 0))
+        o = X.Out(tree)
+        r = rng.fork(f'c9f-{k}')
+        X.fam_range(r, o, T, quick); X.fam_preflight(r, o, T, quick)
+        X.fam_target(r, o, T, quick); X.fam_framing(r, o, T, quick); X.fam_order(r, o, T, quick)
+        if not quick: X.fam_entry(r, o, T)
+        fam += X.split(tree, o.cases, BATCH)
+    groups = [('default', base + fam)]
+    # configurations: the restricted CORS mode (listed / not listed), the switch not a boolean / not set
+    for ci, cfg in enumerate(('listed', 'closed', 'notbool', 'unset')):
+        batches = []
+        for k in range(1 if quick else 2):
+            tree = S.gen_tree(rng.fork(f'cfg-{cfg}-{k}'), small=True)
+            T = X.extend_tree(rng.fork(f'cfgx-{cfg}-{k}'), tree, k + ci)
+            o = X.Out(tree, cfg)
+            X.fam_preflight(rng.fork(f'cfgp-{cfg}-{k}'), o, T, quick, cfg_vocab=True)
+            if not quick: X.fam_range(rng.fork(f'cfgr-{cfg}-{k}'), o, T, True)
+            batches += X.split(tree, o.cases, BATCH)
+        groups.append((cfg, batches))
+    return groups
 
 def hdrs_no_ts(resp):
     return [(n, v) for n, v in resp['headers'] if n not in ('Date-Unix-Epoch-Nanos',)]
 
-def judge(res, results):
-    i = 0
-    while i + 2 < len(results) + 1 and i + 2 < len(results):
-        trip = results[i:i + 3]; i += 3
-        (cg, rg, ilg, mlg), (ch, rh, ilh, mlh), (co, ro, ilo, mlo) = trip
-        for c, r, il, ml in trip:
-            res.evaluations += 1
-            res.distinct.add(hash((c.entry, c.raw)))
-            if ml is not None:
-                res.programs += 1
-                if il != ml: res.disagree(c.line[:400], il[:300], ml[:300], 'App chain / Response.generate_response')
-        if any(r['head'].startswith(('panic', 'abort')) for _, r, _, _ in trip): continue
-        g, _ = K.parse_resp(rg['writes'][0] if rg['writes'] else b'')
-        h, _ = K.parse_resp(rh['writes'][0] if rh['writes'] else b'')
-        o, _ = K.parse_resp(ro['writes'][0] if ro['writes'] else b'')
-        if g is None or h is None or o is None: continue   # C05's finding
-        res.count(f'GET {g["status"]} {cg.entry}')
-        if g['status'] not in (200, 206): continue
+# the registered status codes: an answer to HEAD / OPTIONS with any of them is READ (and then compared), not skipped
+STATUS = {100: 'Continue', 101: 'Switching Protocols', 102: 'Processing', 103: 'Early Hints', 200: 'OK', 201: 'Created', 202: 'Accepted', 203: 'Non Authoritative Information',
+          204: 'No Content', 205: 'Reset Content', 206: 'Partial Content', 207: 'Multi-Status', 208: 'Already Reported', 226: 'IM Used', 300: 'Multiple Choices', 301: 'Moved Permanently',
+          302: 'Found', 303: 'See Other', 304: 'Not Modified', 307: 'Temporary Redirect', 308: 'Permanent Redirect', 400: 'Bad Request', 401: 'Unauthorized', 402: 'Payment Required',
+          403: 'Forbidden', 404: 'Not Found', 405: 'Method Not Allowed', 406: 'Not Acceptable', 407: 'Proxy Authentication Required', 408: 'Request Timeout', 409: 'Conflict', 410: 'Gone',
+          411: 'Length Required', 412: 'Precondition Failed', 413: 'Payload Too Large', 414: 'URI Too Long', 415: 'Unsupported Media Type', 416: 'Range Not Satisfiable',
+          417: 'Expectation Failed', 418: "I'm a teapot", 421: 'Misdirected Request', 422: 'Unprocessable Entity', 423: 'Locked', 424: 'Failed Dependency', 425: 'Too Early',
+          426: 'Upgrade Required', 428: 'Precondition Required', 429: 'Too Many Requests', 431: 'Request Header Fields Too Large', 451: 'Unavailable For Legal Reasons',
+          500: 'Internal Server Error', 501: 'Not Implemented', 502: 'Bad Gateway', 503: 'Service Unavailable', 504: 'Gateway Timeout', 505: 'HTTP Version Not Supported',
+          506: 'Variant Also Negotiates', 507: 'Insufficient Storage', 508: 'Loop Detected', 510: 'Not Extended', 511: 'Network Authentication Required'}
+
+def lenient(raw):
+    """status and the rest of a response whose status line the strict reader refuses (unregistered code, other reason phrase): read anyway"""
+    import re
+    m = re.match(rb'^HTTP/\d\.\d (\d{3})[^\r\n]*\r\n', raw)
+    i = raw.find(b'\r\n\r\n')
+    if not m or i < 0: return None
+    hs = []
+    for ln in raw[m.end():i].split(b'\r\n'):
+        n, _, v = ln.partition(b':')
+        hs.append((n.decode('latin1'), v.strip(b' \t').decode('latin1')))
+    return dict(status=int(m.group(1)), reason='', headers=hs, body=raw[i + 4:])
+
+def read(r):
+    raw = r['writes'][0] if r['writes'] else b''
+    p, why = K.parse_resp(raw)
+    if p is None: p, _ = K.parse_resp(raw, STATUS)
+    return p, why, raw
+
+def asked(headers):
+    """the first value of every request header, by lower-cased name (field names are case-insensitive; the first one counts)"""
+    d = {}
+    for n, v in headers: d.setdefault(n.lower(), v)
+    return d
+
+def covers(grant, want):
+    g = [x.strip().lower() for x in grant.split(',')]
+    return '*' in g or all(a.strip().lower() in g for a in want.split(',') if a.strip())
+
+def grants_due(cfg, ask):
+    """which grant headers the configuration owes this preflight: None = nothing can be demanded"""
+    if 'origin' not in ask: return None
+    if cfg in X.ALLOW_ALL_CFGS: return True
+    if cfg == 'listed':
+        if ask['origin'] not in X.CFG_ORIGINS: return None
+        if 'access-control-request-method' in ask and not covers(','.join(X.CFG_METHODS), ask['access-control-request-method']): return None
+        if 'access-control-request-headers' in ask and not covers(','.join(X.CFG_HEADERS), ask['access-control-request-headers']): return None
+        return True
+    return None
+
+def judge_triple(res, trip):
+    (cg, rg, _, _), (ch, rh, _, _), (co, ro, _, _) = trip['G'], trip['H'], trip['O']
+    cfg, fam = cg.note[2], cg.note[3]
+    if any(r['head'].startswith(('panic', 'abort')) for _, r, _, _ in trip.values()): return
+    g, _ = K.parse_resp(rg['writes'][0] if rg['writes'] else b'')
+    if g is None: return   # C05's finding
+    res.count(f'GET {g["status"]} {cg.entry}')
+    res.count(f'family {fam} GET {"served" if g["status"] in (200, 206) else "not served"}')
+    if g['status'] not in (200, 206): return
+    if fam != 'base': res.count(f'served {fam} {g["status"]} parts={"many" if any(n == "Content-Type" and v.startswith("multipart/byteranges") for n, v in g["headers"]) else 1}')
+    where = f'({ch.entry}, CORS configuration {cfg})' if cfg != 'default' else f'({ch.entry})'
+    h, hwhy, hraw = read(rh)
+    o, owhy, oraw = read(ro)
+    if h is None:
+        # GET serves the path and the answer to HEAD is not even a readable response with a registered status
+        hl = lenient(hraw)
+        res.fail('head-differs-from-get', ch.line[:300], f'unreadable HEAD answer ({hwhy}): {hraw[:60]!r} vs GET {g["status"]}', None,
+                 f'C09: HEAD {ch.target!r} {where} does not have the status and headers of GET')
+        if hl and hl['body']: res.fail('head-has-body', ch.line[:300], hl['body'][:40].hex(), None, 'C09: HEAD response carries a body')
+    else:
         if h['status'] != g['status'] or hdrs_no_ts(h) != hdrs_no_ts(g):
             diff = [x for x in hdrs_no_ts(g) if x not in hdrs_no_ts(h)] + [x for x in hdrs_no_ts(h) if x not in hdrs_no_ts(g)]
             res.fail('head-differs-from-get', ch.line[:300], f'{h["status"]} vs {g["status"]}; {diff[:4]}', None,
-                     f'C09: HEAD {ch.target!r} ({ch.entry}) does not have the status and headers of GET')
+                     f'C09: HEAD {ch.target!r} {where} does not have the status and headers of GET')
         if h['body']:
             res.fail('head-has-body', ch.line[:300], h['body'][:40].hex(), None, 'C09: HEAD response carries a body')
-        if o['status'] not in (200, 204) or o['body']:
-            res.fail('options-not-bodiless-success', co.line[:300], f'{o["status"]} body {len(o["body"])}', None,
-                     f'C09: OPTIONS {co.target!r} ({co.entry}) must be a bodiless success')
-        if any(n == 'Origin' for n, _ in co.headers):
-            names = [n for n, _ in o['headers']]
-            need = ['Access-Control-Allow-Origin']
-            if any(n == 'Access-Control-Request-Method' for n, _ in co.headers):
-                need += ['Access-Control-Allow-Methods']
-                if any(n == 'Access-Control-Request-Headers' for n, _ in co.headers): need += ['Access-Control-Allow-Headers']
-            miss = [n for n in need if n not in names]
-            if not miss and len(need) > 1:
-                # the grants have to cover what was asked for, otherwise the browser's preflight still fails
-                got = {n: v for n, v in o['headers']}
-                def covers(grant, asked):
-                    g = [x.strip().lower() for x in grant.split(',')]
-                    return '*' in g or all(a.strip().lower() in g for a in asked.split(',') if a.strip())
-                ask = {n: v for n, v in co.headers}
-                if not covers(got['Access-Control-Allow-Methods'], ask['Access-Control-Request-Method']): miss.append('Access-Control-Allow-Methods covering ' + ask['Access-Control-Request-Method'])
-                if 'Access-Control-Request-Headers' in ask and not covers(got['Access-Control-Allow-Headers'], ask['Access-Control-Request-Headers']):
-                    miss.append('Access-Control-Allow-Headers covering ' + ask['Access-Control-Request-Headers'])
-                if got['Access-Control-Allow-Origin'] not in ('*', ask['Origin']): miss.append('Access-Control-Allow-Origin naming the origin')
-            if miss:
-                res.fail('preflight-grants-missing', co.line[:300], str(miss), None, f'C09: OPTIONS preflight for {co.target!r} lacks {miss}')
+        cl = H.get(h['headers'], 'Content-Length')
+        if cl and (len(cl) != 1 or not cl[0].isdigit() or int(cl[0]) != len(g['body'])):
+            res.fail('head-content-length-not-get-body', ch.line[:300], f'Content-Length {cl} vs GET body of {len(g["body"])} bytes', None,
+                     f'C09: HEAD {ch.target!r} {where}: Content-Length is not the length of the body GET sends')
+    if o is None:
+        ol = lenient(oraw)
+        res.fail('options-not-bodiless-success', co.line[:300], f'unreadable OPTIONS answer ({owhy}): {oraw[:60]!r}', None,
+                 f'C09: OPTIONS {co.target!r} {where} must be a bodiless success')
+        o = ol
+        if o is None: return
+    elif o['status'] not in (200, 204) or o['body']:
+        res.fail('options-not-bodiless-success', co.line[:300], f'{o["status"]} body {len(o["body"])}', None,
+                 f'C09: OPTIONS {co.target!r} {where} must be a bodiless success')
+    ask = asked(co.headers)
+    if grants_due(cfg, ask):
+        names = [n for n, _ in o['headers']]
+        need = ['Access-Control-Allow-Origin']
+        if 'access-control-request-method' in ask:
+            need += ['Access-Control-Allow-Methods']
+            if 'access-control-request-headers' in ask: need += ['Access-Control-Allow-Headers']
+        miss = [n for n in need if n not in names]
+        got = {}
+        for n, v in o['headers']: got.setdefault(n, v)
+        if not miss:
+            # the grants have to cover what was asked for, otherwise the browser's preflight still fails
+            if got['Access-Control-Allow-Origin'] not in ('*', ask['origin']): miss.append('Access-Control-Allow-Origin naming the origin')
+            if len(need) > 1 and not covers(got['Access-Control-Allow-Methods'], ask['access-control-request-method']):
+                miss.append('Access-Control-Allow-Methods covering ' + ask['access-control-request-method'])
+            if len(need) > 2 and not covers(got['Access-Control-Allow-Headers'], ask['access-control-request-headers']):
+                miss.append('Access-Control-Allow-Headers covering ' + ask['access-control-request-headers'][:80])
+        if miss:
+            res.fail('preflight-grants-missing', co.line[:300], str(miss)[:300], None, f'C09: OPTIONS preflight for {co.target!r} {where} lacks {str(miss)[:200]}')
+
+def judge(res, results):
+    trips = {}
+    for c, r, il, ml in results:
+        res.evaluations += 1
+        res.distinct.add(hash((c.entry, c.raw, c.note[2])))
+        if ml is not None:
+            res.programs += 1
+            if il != ml: res.disagree(c.line[:400], il[:300], ml[:300], 'App chain / Response.generate_response')
+        trips.setdefault(c.note[0], {})[c.note[1]] = (c, r, il, ml)
+    for tid in sorted(trips):
+        if len(trips[tid]) == 3: judge_triple(res, trips[tid])
+
+SLICE = 32      # batches run side by side and judged before the next ones start (bounds the memory of the thorough tier; quick is one slice)
 
 def run(res, tier, seed):
     rng = C.Rng(seed)
-    batches = build(rng, tier)
-    results = K.run_batches(batches, with_model=WITH_MODEL)
-    judge(res, results)
-    res.rule = ('all servable paths of generated trees (files, directory indexes, .html fallbacks, built-in pages) and a missing one x {GET, HEAD, OPTIONS} x '
-                '{no Origin, Origin, Origin+Request-Method+Request-Headers, Origin+Request-Method only, Range 0-, Range 0-0} x both entry points; judged as triples; distinct = (entry, request)')
-    for c, r, il, ml in results[:3]:
-        res.sample({'entry': c.entry, 'request': c.raw[:80].decode('latin1'), 'status_line': r['recv'][:30].decode('latin1')})
+    flat = [(cfg, b) for cfg, batches in build(rng, tier) for b in batches]
+    for i in range(0, len(flat), SLICE):
+        groups = {}
+        for cfg, b in flat[i:i + SLICE]: groups.setdefault(cfg, []).append(b)     # a batch holds whole triples
+        results = X.run_groups(list(groups.items()), WITH_MODEL)
+        judge(res, results)
+        if i == 0:
+            for c, r, il, ml in results[:3]:
+                res.sample({'entry': c.entry, 'request': c.raw[:80].decode('latin1'), 'status_line': r['recv'][:30].decode('latin1')})
+    res.rule = ('all servable paths of generated trees (files, directory indexes, .html fallbacks, built-in pages with and without a file of their own in the root, links whose name has '
+                'another media type than their target, directories behind links, empty and 64-KiB-crossing files) and missing ones x {GET, HEAD, OPTIONS} in every emission order x '
+                '{no Origin, Origin, Origin+Request-Method(+Request-Headers) over the method table / header-list shapes / origin serialisations / header orders / a browser header block / '
+                'other letter case, Range of every shape around the body size incl. multi-range, Range together with Origin} x target spellings (queries, fragments, doubled slashes, dot '
+                'segments) x request framings (versions, bare LF, leading blank, repeated headers, body) x CORS configurations (allow-all, restricted listed / not listed, switch not '
+                'boolean / unset) x both entry points (thorough: the two application handlers directly as well); judged as triples; distinct = (entry, request, configuration)')
